@@ -935,6 +935,13 @@ class Connection (EventMixin):
 
       msg_length = self.buf[offset+2] << 8 | self.buf[offset+3]
 
+      if msg_length < 8:
+        # Can't be right (the header alone is 8 bytes), and we've lost
+        # track of where messages start.
+        log.warning("Bad OpenFlow message length (%i) on connection %s"
+                    % (msg_length, self))
+        return False # Throw connection away
+
       if buf_len - offset < msg_length: break
 
       new_offset,msg = self.unpackers[ofp_type](self.buf, offset)
